@@ -3,7 +3,7 @@
    the reference solver (Spec.Linear.gauss_solve); that the plans the real crate replays produce
    exactly this solution is the certificate theorem of C06 plus the correspondence check. *)
 From Coq Require Import NArith List Bool.
-From RQ Require Import Base.Outcome Base.Ints Base.ListX Spec.Linear Spec.Layout
+From RQ Require Import Base.Outcome Base.Ints Base.ListX Gen.Consts Spec.Linear Spec.Layout
   Model.Octet Model.FieldFast Model.SysConst Model.Tuple Model.CMatrix Model.Layout Model.Slab.
 Import ListNotations.
 Open Scope N_scope.
@@ -61,8 +61,11 @@ Definition enc_into (m : mode) (K : N) (C : list (list N)) (t : tuple6) : outcom
 Definition sbe_source_packets (e : sb_encoder) : outcome (list ((N * N) * list N)) :=
   source_packets (sbe_id e) (sbe_syms e).
 
-(* repair_packets(start_repair_symbol_id, packets): all arithmetic in u32 *)
-Definition sbe_repair_packets (m : mode) (e : sb_encoder) (start n : N)
+(* repair_packets(start_repair_symbol_id, packets) as it was before the repair (pinned code): all
+   arithmetic in u32 and no check of the window against the 24-bit id space, so that with wrapping
+   arithmetic a window starting near 2^32 aliases source identifiers (Props/C18.v,
+   C18_pinned_refuted) *)
+Definition sbe_repair_packets_pinned (m : mode) (e : sb_encoder) (start n : N)
   : outcome (list ((N * N) * list N)) :=
   let K := lenN (sbe_syms e) in
   Kp <- extended_source_block_symbols K ;;
@@ -79,6 +82,14 @@ Definition sbe_repair_packets (m : mode) (e : sb_encoder) (start n : N)
            id <- payload_id_new (sbe_id e) esi ;;
            Ok (id, data))
         (rangeN (N.to_nat n)).
+
+(* repair_packets(start_repair_symbol_id, packets), repaired: first
+   `assert!(len as u64 + start as u64 + packets as u64 <= 16777216)` (u64: cannot overflow), then
+   the unchanged body *)
+Definition sbe_repair_packets (m : mode) (e : sb_encoder) (start n : N)
+  : outcome (list ((N * N) * list N)) :=
+  assert_ok (lenN (sbe_syms e) + start + n <=? ESI_LIMIT) ;;;
+  sbe_repair_packets_pinned m e start n.
 
 (* Encoder::new: one block encoder per block, block index `as u8` *)
 Definition encoder_new_full (m : mode) (c : cfg) (data : list N) : outcome (list sb_encoder) :=
